@@ -22,8 +22,11 @@ LEVEL = ('decides: a solution handed out is the snapshot taken while the solver 
          'an unvisited watcher (S13/S14, WAKE/READD decided on all old⊇new domain pairs). the '
          'arithmetic constraint builders and their negations mean what their names say (S15 = C09-R10,'
          ' linear-form abstract evaluation); all_different posts x_i != x_j for every pair i < j '
-         '(S16). Does not decide that any propagator detects every violation once its variables are '
-         'fixed')
+         '(S16). Also runs the KERNEL BUNDLE (rule ids …K<n>): the kernel rules every verdict depends '
+         'on — predicate algebra, nogood watchers, minimisers, conflict-analysis tables, nogood '
+         'deletion, decision read-back, no-learning resolver, constraint builders, reified reasons — '
+         'wherever they are not already registered here under another id. Does not decide that any '
+         'propagator detects every violation once its variables are fixed')
 TECHNIQUE = "static analysis: must-pass / dominance / paired-set / override⇒declare / table rules over rustc MIR"
 
 
@@ -414,3 +417,7 @@ def _u5b(led, rid, ctx):
     from . import C09 as _C09
     run_rule(led, "S15", "LINFORM: the arithmetic constraint builders mean what they say (shared with C09-R10)", _C09.r10, ctx)
     run_rule(led, "S16", "PAIR-LOOP: all_different posts x_i != x_j for every pair i < j", s16, ctx)
+    from . import kernel as _kernel
+    _kernel.run_bundle(led, ctx, "S")
+    from . import kernel as _kernel2
+    _kernel2.run_lifecycle(led, ctx, "S")
